@@ -23,6 +23,12 @@ class VFS_Real:
         self.config = config
         self.chain = chain
 
+    def isreal(self) -> bool:
+        """True if getfspath() names a file on the real filesystem that
+        other libraries and programs can open.  Subclasses that serve
+        something else (e.g. ZIP members) must return False."""
+        return True
+
     def iswritable(self, selector: str) -> bool:
         return True
 
